@@ -2,6 +2,7 @@ import ErrModel.Recipe
 import ErrModel.Migrations
 import ErrModel.Accessors
 import ErrModel.Shape
+import ErrModel.Compat
 /-
   Observation streams printed by the driver (and, identically, by the harness
   from the real code).
@@ -84,6 +85,52 @@ def pAcc (e : Err) : String :=
     pList ["safedet", pList ((getAllSafeDetails Full vfStub e).map (fun x =>
       pList [pStr x.1, pTMark x.2.1, pStrs x.2.2]))]]
 
+/-- does the layer's Go type implement errbase.SafeDetailer -/
+def isSafeDetailer : Err → Bool
+  | .leaf _ k => (match k with
+    | .leafError _ | .unimplemented .. | .opaqueLeaf .. => true
+    | .user u _ => u.safe ≠ []
+    | _ => false)
+  | .barrier .. => true
+  | .second .. => true
+  | .wrap _ k _ => (match k with
+    | .withPrefix _ | .withNewMessage _ | .withStack _ | .withIssueLink .. | .withTelemetry _ | .withDomain _
+    | .withContext .. | .withSafeDetails _ | .opaqueWrapper .. => true
+    | .user u _ => u.safe ≠ []
+    | _ => false)
+  | .multi _ k _ => (match k with
+    | .opaqueLeafCauses .. => true
+    | _ => false)
+
+/-- the As targets of the C14 stream, as predicates on layers -/
+def asTargets : List (String × (Err → Bool)) := [
+  ("PathError", fun n => match n with | .wrap _ (.pathError ..) _ => true | _ => false),
+  ("LinkError", fun n => match n with | .wrap _ (.linkError ..) _ => true | _ => false),
+  ("SyscallError", fun n => match n with | .wrap _ (.syscallError _) _ => true | _ => false),
+  ("Errno", fun n => match n with | .leaf _ (.errno ..) => true | _ => false),
+  ("TestError", fun n => match n with | .leaf _ .testErr => true | _ => false),
+  ("ULeafA", fun n => n.ty.tstr = b!"*main.ULeafA"),
+  ("UWrapP", fun n => n.ty.tstr = b!"*main.UWrapP"),
+  ("UWrapC", fun n => n.ty.tstr = b!"*main.UWrapC"),
+  ("UMulti", fun n => n.ty.tstr = b!"*main.UMulti"),
+  ("SafeDetailer", isSafeDetailer)]
+
+def pFound : Option Err → String
+  | none => "(none)"
+  | some n => pList ["some", pStr n.ty.tstr, pStr (text n)]
+
+def pCompat (e : Err) (refs : List (Option Err)) : String :=
+  pList ["compat",
+    pList ["stdis", pList (refs.map fun r => match r with
+      | some r => pBool (stdIs e r)
+      | none => "n0")],
+    pList ["cause", pStr (unwrapAll e).ty.tstr, pStr (text (unwrapAll e))],
+    (match pkgCause e with
+      | some r => pList ["pkgcause", pStr r.ty.tstr, pStr (text r)]
+      | none => "(pkgcause (nil))"),
+    pList ["unwrap", pList ((reach e).map fun n => pList [pFound (unwrapOnce n), pFound (stdUnwrap n)])],
+    pList ["as", pList (asTargets.map fun t => pList [t.1, pFound (libAs t.2 e), pFound (stdAs t.2 e)])]]
+
 def obsCase (e : Option Err) (refs : List (Option Err)) : String :=
   match e with
   | none => pList ["res", "(nil)", pList ["is", pList (refs.map fun r => pOB (isOpt Full none r))]]
@@ -104,6 +151,7 @@ def obsCase (e : Option Err) (refs : List (Option Err)) : String :=
       pList ["acc0", pAcc e],
       pList ["acc1", pOpt pAcc h1],
       pList ["acc2", pOpt pAcc h2],
+      pList ["compat", pCompat e refs],
       pList ["isany", pBool (isAnyB Full e refs)],
       pList ["isanyhalf", pBool (isAnyB Full e (refs.take (refs.length / 2)))]]
 
